@@ -544,7 +544,27 @@ func (ck *Check) report(v viol, seed uint64, tier string) string {
 	}
 	small := v.tape
 	if fails(v.tape) {
-		small = Shrink(v.tape, fails, max)
+		// minimise in a goroutine under a wall-clock limit: a candidate tape may
+		// make the code under test loop for ever, which cannot be interrupted; the
+		// best tape found so far is then reported
+		var mu sync.Mutex
+		best := v.tape
+		done := make(chan []uint32, 1)
+		go func() {
+			done <- ShrinkWithProgress(v.tape, fails, max, func(b []uint32) {
+				mu.Lock()
+				best = b
+				mu.Unlock()
+			})
+		}()
+		select {
+		case small = <-done:
+		case <-time.After(90 * time.Second):
+			mu.Lock()
+			small = best
+			mu.Unlock()
+			fmt.Fprintln(os.Stderr, "minimisation abandoned after 90 s; reporting the smallest failing tape found so far")
+		}
 	} else {
 		fmt.Fprintln(os.Stderr, "warning: violation did not reproduce in-process from its tape; reporting unshrunk")
 	}
